@@ -2,6 +2,7 @@
   C03 — emitter budget: the height function equals the bipartite entanglement entropy.
 -/
 import GraphiqModel.Proofs.StabTableau
+import GraphiqModel.Proofs.Solver
 namespace Graphiq.C03
 open Graphiq Graphiq.PRow Graphiq.STab Graphiq.Tab
 
@@ -42,6 +43,17 @@ theorem height_list_length (t : STab) (l : List Int) (h : t.heightFuncList = .ok
         rw [hm] at h
         injection h with h
         rw [← h]; simp
+
+/-- **the deterministic solver emits each photon exactly once** (model of `TimeReversedSolver.solve`, every target, every size):
+    the circuit it builds contains exactly one emission CNOT onto every photon, and none onto anything else -/
+theorem solver_emits_each_photon_once (target : STab) (s : Solver.St) (h : Solver.solve target = .ok s) :
+    s.np = target.n ∧ ∀ p, Solver.emitCount p s.circ = if p < target.n then 1 else 0 :=
+  Solver.solve_emits_each_photon_once target s h
+
+/-- **and allocates exactly the maximum of the height function as its number of emitters**:
+    `determine_n_emitters` = `max(height_func_list(rref(target)))`, and nothing afterwards changes the register counts -/
+theorem solver_allocates_max_height (target : STab) (s : Solver.St) (h : Solver.solve target = .ok s) :
+    Solver.determineNEmitters target = .ok s.ne := Solver.solve_emitter_count target s h
 
 /-- full statement kept visible (not a theorem of this development — echelon-gauge lemma, Tier B):
     the height at `k` equals `|B| − dim {P ∈ group : supp P ⊆ B}` for `B = {k+1..n−1}`, hence is gauge independent -/
